@@ -1268,6 +1268,13 @@ class RNG:
             r = r * scale + loc
         return r if size is not None else r.a[0]
 
+    def standard_normal(self, size=None, dtype=None, out=None):
+        if out is not None:
+            r = self.normal(size=out.size)
+            out._inplace(r.reshape(out.shape))
+            return out
+        return self.normal(size=size)
+
 
 def _rng_reset():
     RNG.calls.clear()
